@@ -98,6 +98,7 @@ type JSOpts struct {
 	NoClassSelf      bool // class expressions never reference their own name (recorded known finding)
 	NoModuleItems    bool // no import/export
 	MaxStmts         int
+	CtxNames         bool // contextual keywords (async, of, get, set, as, from) are used as variable names too
 	ParamDefaultRefs bool // parameter defaults mention variables of the scopes outside the function
 	Budget           int  // expression/statement budget (0 = random 20..140)
 }
@@ -140,6 +141,16 @@ type jsGen struct {
 
 var jsNamePool = []string{"a", "b", "c", "x", "y"}
 
+// contextual keywords that are ordinary identifiers everywhere (never reserved, also in strict code and modules)
+var jsCtxNames = []string{"async", "of", "get", "set", "as", "from"}
+
+func (g *jsGen) pickName() string {
+	if g.o.CtxNames && g.r.Intn(4) == 0 {
+		return Pick(g.r, jsCtxNames)
+	}
+	return Pick(g.r, jsNamePool)
+}
+
 func (g *jsGen) newScope(kind string) *jsScope {
 	s := &jsScope{kind: kind, parent: g.scope, decl: map[string]int{}, lexical: map[string]bool{}, vars: map[string]bool{}}
 	if kind == "func" || kind == "module" {
@@ -157,7 +168,7 @@ func (g *jsGen) pop()                      { g.scope = g.scope.parent }
 func (g *jsGen) declare(kind string) *JSNode {
 	name := ""
 	for try := 0; try < 8 && name == ""; try++ {
-		cand := Pick(g.r, jsNamePool)
+		cand := g.pickName()
 		if try >= 5 {
 			g.fresh++
 			cand = fmt.Sprintf("u%d", g.fresh)
@@ -230,9 +241,9 @@ func (g *jsGen) ref() *JSNode {
 	if g.noRefs > 0 {
 		return &JSNode{K: "num", S: "7"}
 	}
-	name := Pick(g.r, jsNamePool)
+	name := g.pickName()
 	for try := 0; g.avoid[name] && try < 6; try++ {
-		name = Pick(g.r, jsNamePool)
+		name = g.pickName()
 	}
 	if g.r.Intn(12) == 0 || g.avoid[name] {
 		name = Pick(g.r, []string{"g1", "Math", "undefined", "console"})
@@ -270,7 +281,7 @@ cont"`, `''`, `"é日"`, `'</script>'`, `"use\x20strict"`})}
 		return &JSNode{K: "kw", S: Pick(r, []string{"null", "true", "false", "this"})}
 	case 5:
 		if !g.o.NoRegex {
-			return &JSNode{K: "regex", S: Pick(r, []string{"/ab+c/", "/[/\\]]+/gi", "/\\//", "/a|b/u", "/(?<n>x)\\k<n>/", "/=/"})}
+			return &JSNode{K: "regex", S: Pick(r, []string{"/ab+c/", "/[/\\]]+/gi", "/\\//", "/a|b/u", "/(?<n>x)\\k<n>/", "/=/", "/[[]/", "/[^[/]+/g", "/[[\\]]/", "/[a-z/]/", "/\\[/", "/[\\]/]/y", "/(?:)/", "/a{1,2}/s"})}
 		}
 		return &JSNode{K: "num", S: "7"}
 	default:
@@ -333,7 +344,10 @@ func (g *jsGen) propKey() *JSNode {
 	}
 	switch r.Intn(8) {
 	case 0:
-		return &JSNode{K: "keystr", S: Pick(r, []string{`"k-1"`, `'k 2'`, `"a"`})}
+		// quoted keys: not identifier-like, identifier-like (the parser may store them as identifiers), with escapes (must
+		// stay quoted), non-ASCII, numeric-looking, empty
+		return &JSNode{K: "keystr", S: Pick(r, []string{`"k-1"`, `'k 2'`, `"a"`, `"\n"`, `'a\tb'`, `"\\"`, `"\x41"`, `"\u0041b"`, `"café"`, `"12"`, `"1.5"`, `""`, `"if"`, `'q_'`, `"a\
+b"`})}
 	case 1:
 		return &JSNode{K: "keynum", S: Pick(r, []string{"1", "2.5", "0x10"})}
 	case 2:
@@ -732,6 +746,9 @@ func (g *jsGen) memberChain(depth int, allowCall bool) *JSNode {
 	var n *JSNode
 	if r.Intn(4) == 0 && depth < 4 {
 		n = g.expr(depth+1, pComma) // arbitrary base: parenthesised as needed
+	} else if r.Intn(10) == 0 {
+		// a literal as base: 1.5.toFixed, 42 .p, "s".length, `t`.q
+		n = g.lit()
 	} else {
 		n = g.ref()
 	}
@@ -995,6 +1012,10 @@ func (g *jsGen) stmt(depth int, top bool) *JSNode {
 		// generated first, the expression second, both in the loop scope.
 		if r.Intn(4) == 0 {
 			n.Kids[0] = g.lhs(depth)
+			if n.K == "forof" && n.Kids[0].K == "ident" && n.Kids[0].S == "async" {
+				// `for (async of …` is excluded by a lookahead restriction of the grammar
+				n.Kids[0] = &JSNode{K: "member", S: "p", Kids: []*JSNode{n.Kids[0]}}
+			}
 		} else {
 			kind := Pick(r, []string{"var", "let", "const"})
 			n.Kids[0] = &JSNode{K: "vardecl", Op: kind, Kids: []*JSNode{{K: "declarator", Kids: []*JSNode{g.pattern(kind, 0), nil}}}}
@@ -1090,7 +1111,9 @@ func (g *jsGen) stmt(depth int, top bool) *JSNode {
 	case c == 23:
 		return &JSNode{K: "debugger"}
 	case c == 24, c == 25:
-		if top {
+		// function declarations: directly in a function body or the program, and (the statement's reading: hoisted to the
+		// enclosing function like var) in nested blocks, case clauses, try and catch blocks
+		if top || r.Intn(2) == 0 {
 			n := &JSNode{K: "funcdecl"}
 			async, generator := r.Intn(5) == 0, r.Intn(5) == 0
 			if async {
@@ -1190,11 +1213,11 @@ func (g *jsGen) moduleItem() *JSNode {
 	case 0:
 		g.fresh++
 		u := fmt.Sprint(g.fresh)
-		return &JSNode{K: "import", S: Pick(r, []string{`import "m"`, `import * as ns` + u + ` from 'm'`, `import d` + u + ` from "m"`, `import {e1 as e` + u + `, f` + u + `} from "m"`, `import d` + u + `, {g` + u + `} from "m"`})}
+		return &JSNode{K: "import", S: g.importText(u)}
 	case 1:
 		g.fresh++
 		u := fmt.Sprint(g.fresh)
-		return &JSNode{K: "exportraw", S: Pick(r, []string{`export * from "m"`, `export {}`, `export * as xs` + u + ` from "m"`, `export {e5 as x` + u + `} from "m"`})}
+		return &JSNode{K: "exportraw", S: g.exportText(u)}
 	case 2:
 		if !g.exported {
 			g.exported = true
@@ -1207,6 +1230,74 @@ func (g *jsGen) moduleItem() *JSNode {
 		}
 	}
 	return g.stmt(0, true)
+}
+
+// specifier list of an import or export clause: names (also reserved words and string names on the module side),
+// `as` renames, trailing comma; every local or exported name is unique through the suffix u.
+func (g *jsGen) specifiers(u string, isImport bool) string {
+	r := g.r
+	n := r.Intn(4)
+	var parts []string
+	for i := 0; i < n; i++ {
+		ext := Pick(r, []string{"e1", "e2", "default", "if", "as", "from", `"s-t"`, "async"})
+		loc := fmt.Sprintf("m%s_%d", u, i)
+		if isImport {
+			if ext == "e1" && r.Intn(2) == 0 {
+				parts = append(parts, loc) // import { m1_0 }
+			} else {
+				parts = append(parts, ext+" as "+loc)
+			}
+		} else {
+			// export … from "m": both sides are names of the other module / of the export table
+			out := Pick(r, []string{loc, loc, `"x-` + u + fmt.Sprint(i) + `"`})
+			if i == 0 && r.Intn(6) == 0 && !g.exported {
+				out = "default"
+				g.exported = true
+			}
+			parts = append(parts, ext+" as "+out)
+		}
+	}
+	txt := "{ " + strings.Join(parts, " , ")
+	if n > 0 && r.Intn(3) == 0 {
+		txt += " ,"
+	}
+	return txt + " }"
+}
+
+func (g *jsGen) importText(u string) string {
+	r := g.r
+	from := Pick(r, []string{`"m"`, `'./m.js'`})
+	switch r.Intn(7) {
+	case 0:
+		return "import " + from
+	case 1:
+		return "import * as ns" + u + " from " + from
+	case 2:
+		return "import d" + u + " from " + from
+	case 3:
+		return "import d" + u + " , * as ns" + u + " from " + from
+	case 4:
+		return "import d" + u + " , " + g.specifiers(u, true) + " from " + from
+	default:
+		return "import " + g.specifiers(u, true) + " from " + from
+	}
+}
+
+func (g *jsGen) exportText(u string) string {
+	r := g.r
+	from := Pick(r, []string{`"m"`, `'./m.js'`})
+	switch r.Intn(6) {
+	case 0:
+		return "export * from " + from
+	case 1:
+		return "export * as xs" + u + " from " + from
+	case 2:
+		return `export * as "x-s` + u + `" from ` + from
+	case 3:
+		return "export { }"
+	default:
+		return "export " + g.specifiers(u, false) + " from " + from
+	}
 }
 
 // JSProgram generates an abstract program.
